@@ -964,6 +964,20 @@ def leaf_writer(prog, res, rule, f, leaf_items, prefix):
 def payload_writer(prog, res, rule, f, alt, ck):
     spec = load_spec()
     L = rec_layout(spec, 'parameter')
+    # a buffer of elements written with a byte count that is not (elements x element size): the bytes do not line up with the values
+    def mism(items):
+        for it in items:
+            if it[0] == 'io' and (it[1].get('gather') or {}).get('verdict') == 'mismatch' and (it[1]['gather'].get('copy_of') or '').startswith('this._param_data'):
+                yield it[1]
+            elif it[0] == 'loop':
+                yield from mism(it[3])
+            elif it[0] == 'alt':
+                yield from mism(it[2])
+                yield from mism(it[3])
+            elif it[0] == 'call':
+                yield from mism(it[3])
+    for d_ in mism(alt[2]):
+        ck.bad('data.element-width', d_['where'], 'parameter values are sent from a copy of %s: %s' % (d_['gather'].get('copy_of'), d_['gather']['why']), facts={'cite': L['data']['cite']})
     g = prog.fn('ezc3d::ParametersNS::GroupNS::Parameter::writeImbricatedParameter', nparams=4)
     okr, why, leaf = recursion_scheme(prog, g, 2, 1, 'w')
     if not okr:
